@@ -3,7 +3,7 @@
 From Coq Require Import List ZArith Bool.
 From EDS Require Import Model.Objects Model.Fitness Model.PodSpec Model.Default Model.Rolling Model.Canary
      Model.ErsReconcile Model.EdsLogic Model.EdsReconcile
-     Proofs.Lists Proofs.SyncInv Proofs.C04Proofs Proofs.EdsInv Proofs.C15Proofs Proofs.C15Sync.
+     Proofs.Lists Proofs.SyncInv Proofs.C01Proofs Proofs.C04Proofs Proofs.EdsInv Proofs.C15Proofs Proofs.C15Sync.
 Import ListNotations.
 Open Scope Z_scope.
 
@@ -60,7 +60,7 @@ Theorem C04_label_add_only_canary : forall sn ch pl e pn,
   ers_sync sn ch = Ok pl -> sn_eds sn = Some e -> In pn (pl_label_add pl) ->
   pl_role pl = RoleCanary /\
   exists p nn, In p (sn_pods sn) /\ p_name p = pn /\ p_rs_label p = r_name (sn_rs sn) /\
-               node_of_pod p = Some nn /\ In nn (canary_nodes_of e).
+               node_of_pod p = Some nn /\ In nn (canary_nodes_of e) /\ C01Proofs.own_pod e p.
 Proof. exact label_add_only_canary. Qed.
 Print Assumptions C04_label_add_only_canary.
 
